@@ -71,6 +71,17 @@ def spline_scenarios(tier, what):
             out.append("spline n=%d lanes=2 bc=Individual=Clamped|Clamped extrap=1 seed=1" % n)
             out.append("spline n=%d lanes=2 bc=Individual=Natural|Natural extrap=0 seed=4" % n)
             out.append("spline n=%d lanes=2 bc=Natural extrap=1 seed=6 layout=f" % n)
+    if what == "linear":
+        for n in ([2, 3, 5] if tier == "quick" else [2, 3, 4, 5, 7, 9]):
+            for lanes, dyn in (("", 0), ("2", 0), ("2x2", 0), ("3", 1)):
+                for ex in (0, 1):
+                    out.append("linear n=%d lanes=%s extrap=%d seed=%d dyn=%d" % (n, lanes, ex, (n + ex) % 6, dyn))
+            out.append("linear n=%d lanes=2 extrap=1 seed=2 layout=f" % n)
+    if what == "bilinear":
+        for nx, ny in ([(2, 2), (3, 2), (2, 4), (3, 5), (4, 3)] if tier == "quick" else [(2, 2), (3, 2), (2, 4), (3, 5), (4, 3), (5, 5), (6, 2)]):
+            for lanes in (1, 2):
+                for ex in (0, 1):
+                    out.append("bilinear nx=%d ny=%d lanes=%d extrap=%d seed=%d" % (nx, ny, lanes, ex, (nx + ny) % 5))
     if what == "periodic":
         for n in ns + ([8] if tier == "thorough" else []):
             out.append("spline n=%d bc=Periodic extrap=1 seed=%d" % (n, n % 5))
@@ -100,6 +111,11 @@ def entry_scenarios(tier, what):
         for d, q, dd, qd in combos:
             for st in ("bilinear", "record"):
                 out.append("entry2d data=%s q=%s ddyn=%d qdyn=%d strat=%s" % (d, q, dd, qd, st))
+    if what.startswith("oracle:"):
+        _, prop, unit = what.split(":", 2)
+        out.append("oracle prop=%s unit=%s" % (prop, unit))
+    if what == "scalar":
+        out += ["scalar n=%d" % n for n in ([3, 5] if tier == "quick" else [2, 3, 4, 5, 8])]
     if what == "fastpath":
         out += ["fastpath elem=f64", "fastpath elem=f32", "fastpath elem=i32", "fastpath elem=i64"]
     if what == "builder":
@@ -141,7 +157,7 @@ def run(repo, cfg, pid, tier, seed, build):
     if len(recs) != len(lines):
         o["undecided"].append("runner produced %d records for %d scenarios (%s)" % (len(recs), len(lines), p.stderr[-300:]))
     # split into chunks for parallel discharge
-    workdir = os.path.join(build, "s-%s-%s" % (pid, tier))
+    workdir = os.path.join(build, "s-%s-%s-%s" % (pid, tier, hashlib.sha1(os.path.abspath(repo).encode()).hexdigest()[:8]))
     os.makedirs(workdir, exist_ok=True)
     prefixes = tuple(cfg.get("count", ["S:%s:" % pid]))
     dag_recs = []
